@@ -35,6 +35,7 @@ func init() {
 			"RefAstro low-precision Sun (Meeus ch.25) + Espenak-Meeus delta-T resolve 20 minutes for years 1..3000",
 		},
 		Gen: c03Gen, Run: c03Run,
+		BlockKind: "lookup", BlockQuick: [2]int{6, 6}, BlockThorough: [2]int{0, 25},
 		Exhaustive: func(tier string) bool { return true },
 		MinEvals:   map[string]int64{"quick": 500000, "thorough": 5000000},
 		Chunks:     128,
@@ -204,9 +205,10 @@ func c03Lookup(w *W, y int) {
 	queries = append(queries, ref.FromSecs(yearLo), ref.FromSecs(yearHi))
 	sorted := append([]termEntry(nil), model...)
 	sort.Slice(sorted, func(i, j int) bool { return sorted[i].secs < sorted[j].secs })
-	for _, q := range queries {
+	for qi, q := range queries {
 		key := fmtStamp(q)
 		w.Cur("C03 lookup " + key)
+		distract(q, qi)
 		l := solarOf(q).GetLunar()
 		qs := q.Secs()
 		qd := ref.JDN(q.Y, q.M, q.D)
